@@ -117,22 +117,26 @@ def mconn_env(chid, prio, qcap, rcap, maxpayload):
                 CONN_RCAP=",".join(map(str, rcap)), CONN_MAXPAYLOAD=maxpayload)
 
 
-def mconn(c, tag, chid, prio, qcap, rcap, maxpayload, lens, maxmsgs, sched, ticks=0, eager=True, unknown=False, stride=1,
-          replay=True, emptyloss=False, inv="Inv", frag="max"):
+ALLINJ = ["unknown", "ping", "pong", "malformed", "toolong", "nosum", "readerr"]
+
+
+def mconn(c, tag, chid, prio, qcap, rcap, maxpayload, lens, maxmsgs, sched, ticks=0, eager=True, injects=(), stride=1,
+          replay=True, emptyloss=False, inv="Inv", frag="max", batching="each", drainafter=()):
+    """emptyloss / drainafter: companion runs with a named deviation switched on; TLC must violate `inv`."""
     cfg = ("SPECIFICATION Spec\nCONSTANTS\n  ChId <- ChIdV\n  Prio <- PrioV\n  QCap <- QCapV\n  RCap <- RCapV\n  MaxPayload = %d\n"
-           "  EmptyLoss = %s\n  Lens = %s\n  MaxMsgs = %d\n  MaxTicks = %d\n  Sched = \"%s\"\n  Frag = \"%s\"\n  EagerRecv = %s\n  Unknown = %s\n"
-           "VIEW View\nINVARIANT %s\n%s") % (
-        maxpayload, "TRUE" if emptyloss else "FALSE", sset(lens), maxmsgs, ticks, sched, frag, "TRUE" if eager else "FALSE",
-        "TRUE" if unknown else "FALSE", inv, "ACTION_CONSTRAINT Dump\n" if replay else "")
+           "  EmptyLoss = %s\n  DrainAfter = %s\n  Lens = %s\n  MaxMsgs = %d\n  MaxTicks = %d\n  Sched = \"%s\"\n  Frag = \"%s\"\n"
+           "  EagerRecv = %s\n  Batching = \"%s\"\n  Injects = %s\nVIEW View\nINVARIANT %s\n%s") % (
+        maxpayload, "TRUE" if emptyloss else "FALSE", sset('"%s"' % k for k in drainafter), sset(lens), maxmsgs, ticks, sched, frag,
+        "TRUE" if eager else "FALSE", batching, sset('"%s"' % k for k in injects), inv, "ACTION_CONSTRAINT Dump\n" if replay else "")
     dump = os.path.join(c.scratch, "mc-%s.dump" % tag) if replay else None
     r = c.tlc("conn", "MCgen.cfg", module="MCgen", files={"MCgen.tla": mconn_files("MC_MConn", chid, prio, qcap, rcap), "MCgen.cfg": cfg},
               dump_to=dump, timeout=1500, tag="MC_MConn " + tag)
-    if emptyloss:
-        return need_violation(c, r, "MC_MConn with the EmptyLoss deviation", inv)
+    if emptyloss or drainafter:
+        return need_violation(c, r, "MC_MConn %s with a named deviation switched on" % tag, inv)
     need_ok(c, r, "MC_MConn " + tag)
     if replay:
         e = mconn_env(chid, prio, qcap, rcap, maxpayload)
-        e.update(CONN_DUMP=dump, CONN_SCHED=sched, CONN_TAG="mc-" + tag, CONN_STRIDE=stride)
+        e.update(CONN_DUMP=dump, CONN_SCHED=sched, CONN_BATCH=batching, CONN_TAG="mc-" + tag, CONN_STRIDE=stride)
         g = c.gotest("conn", "TestMConnReplay", env=e, timeout=1500, tag="mconn replay " + tag)
         c.absorb(g)
         os.remove(dump)
@@ -168,7 +172,7 @@ def mconn_tv(c, tag, chid, prio, qcap, rcap, maxpayload, runs, zero):
     if g.get("mismatches"):
         return
     gen = mconn_files("MConnTrace", chid, prio, [100000] * len(chid), rcap)
-    consts = "  ChId <- ChIdV\n  Prio <- PrioV\n  QCap <- QCapV\n  RCap <- RCapV\n  MaxPayload = %d\n" % maxpayload
+    consts = "  ChId <- ChIdV\n  Prio <- PrioV\n  QCap <- QCapV\n  RCap <- RCapV\n  MaxPayload = %d\n  DrainAfter = {}\n" % maxpayload
     r, rej = tv_validate(c, "MConnTrace", gen, consts, trace, "MConnTrace " + tag, emptyloss=False)
     detail = None
     if r.violated or rej:
@@ -286,7 +290,26 @@ def run(c):
     two = dict(chid=[1, 2], prio=[1, 3], qcap=[1, 2], rcap=[9, 9], maxpayload=4)
     lens = [0, 1, 4, 5, 9, 10]
     mconn(c, "any-2ch", lens=lens, maxmsgs=3 if not th else 4, sched="any", stride=1 if not th else 2, **two)
-    mconn(c, "any-2ch-unknown", lens=[1, 5, 10], maxmsgs=2 if not th else 3, sched="any", unknown=True, **two)
+    mconn(c, "any-2ch-unknown", lens=[1, 5, 10], maxmsgs=2 if not th else 3, sched="any", injects=["unknown"], **two)
+    # what the receiver has ALREADY READ when an error occurs: TLC chooses where the sender flushes, the driver writes each batch
+    # in one piece, so the packet that stops the connection (capacity crossed, unknown channel, malformed / over-long / empty
+    # packet, read error) sits in the receiver's read buffer in front of small EOF packets of the same and of other channels;
+    # nothing may be delivered after onError, and every delivery must be a sent message
+    mconn(c, "batch-any", lens=[1, 5, 10, 13], maxmsgs=2, sched="any", batching="any", **two)
+    mconn(c, "batch-inject", lens=[1, 5], maxmsgs=2, sched="any", batching="any", injects=ALLINJ, **two)
+    mconn(c, "batch-prio", lens=[1, 10, 13], maxmsgs=2 if not th else 3, sched="prio", batching="any", **two)
+    mconn(c, "batch-any-60", chid=[32, 33], prio=[1, 1], qcap=[2, 2], rcap=[100, 100], maxpayload=60, lens=[20, 130], maxmsgs=2,
+          sched="any", batching="any")
+    if th:
+        mconn(c, "batch-any-3msg", lens=[1, 13], maxmsgs=3, sched="any", batching="any", stride=2, **two)
+        mconn(c, "batch-inject-3msg", lens=[1, 5], maxmsgs=3, sched="any", batching="any", injects=ALLINJ, stride=2, **two)
+    # the invariants are not vacuous: a receive loop that only leaves the switch after an error (bare `break`) is found by TLC
+    mconn(c, "batch-any", lens=[1, 5, 10, 13], maxmsgs=2, sched="any", batching="any", replay=False, drainafter=["cap"],
+          inv="NoDeliveryAfterErrorInv", **two)
+    mconn(c, "batch-any", lens=[1, 5, 10, 13], maxmsgs=2, sched="any", batching="any", replay=False, drainafter=["cap"],
+          inv="DeliveredIsSentInv", **two)
+    mconn(c, "batch-inject", lens=[1, 5], maxmsgs=2, sched="any", batching="any", injects=["unknown", "malformed"], replay=False,
+          drainafter=["chan", "err"], inv="NoDeliveryAfterErrorInv", **two)
     mconn(c, "prio-2ch", lens=lens, maxmsgs=3 if not th else 4, sched="prio", ticks=1, stride=1 if not th else 2, **two)
     # every way of cutting messages into packets (not only the code's): the receiver alone is replayed
     mconn(c, "any-frag", chid=[1, 2], prio=[1, 1], qcap=[1, 1], rcap=[4, 4], maxpayload=2, lens=[0, 1, 3, 4, 5] if not th else [0, 1, 2, 3, 4, 5],
